@@ -35,10 +35,12 @@ RULE = ('one evaluation = one simulated run: a victim client performs a short se
         'run without the holder, and the physical rows and the directory listing before and after are compared; non-trivial = the '
         'holder obtained the lock during the call; distinct = SHA-256 of the seam event log')
 RULE += ' ' + "In one case in seven (Cache / FanoutCache / DjangoCache targets with an evicting policy) the size limit is put at the present volume before the call, so the call's write also evicts (cull_limit 1-2)."
+RULE += ' ' + 'A lookup under a recency / frequency policy that is answered as in the baseline must also be recorded as in the baseline (access count, access time).'
 ASSUMPTIONS = ['the holder is a raw connection holding BEGIN IMMEDIATE (what a long transaction, check() or a slow writer in another process looks like)',
                'SQLite busy timeout is emulated event-driven in virtual time']
 PROBES = ('lock_taken', 'timeout_raised', 'failure_value', 'retry_waited', 'lock_before_begin_after_file', 'lockfree_lookup_under_lock',
-          'bulk_partial_timeout', 'replaced_under_lookup', 'open_with_transient_busy', 'open_failed_loudly', 'expired_during_wait', 'replaced_by_expired_item')
+          'bulk_partial_timeout', 'replaced_under_lookup', 'open_with_transient_busy', 'open_failed_loudly', 'expired_during_wait', 'replaced_by_expired_item',
+          'lookup_answered_but_not_recorded')
 TECHNIQUE = 'deterministic simulation with lock-contention injection: lock acquisition point enumerated over the seam events of the call, virtual-time busy timeout, before/after physical state comparison'
 LEVEL_TEXT = ('fault enumeration: calls are sampled by seed; for each call the instant at which another connection takes the write '
               'lock is enumerated over every seam event of the call (thorough tier) and the hold time is drawn on both sides of the '
@@ -452,6 +454,15 @@ def judge(case, base, run, violations, probes):
     brows_a, bfiles_a = data_rows(b['snaps'][1])
     unchanged = rows_a == rows_b and files_a == files_b
     same_as_baseline = res == bres and rows_a == brows_a and [len(f) for f in files_a] == [len(f) for f in bfiles_a]
+    if name in ('get', 'getitem', 'read') and kind in ('cache', 'fanout', 'django') and _get_writes(cfg):
+        # a lookup that records the use of the item (recency / frequency policies): answered as in the baseline means
+        # recorded as in the baseline - a lookup that could not get the lock is no use of the item (C09)
+        # (the access time is read after the wait for the lock: it may be later than in the baseline, never earlier)
+        meta_a = [m for x in after for m in x['meta']]
+        bmeta_a = [m for x in b['snaps'][1] for m in x['meta']]
+        if len(meta_a) != len(bmeta_a) or any(m[0] != bm[0] or m[3] != bm[3] or m[2] < bm[2] for m, bm in zip(meta_a, bmeta_a)):
+            same_as_baseline = False
+            probes['lookup_answered_but_not_recorded'] = 1
     if name in ('r_throttle', 'r_stampede'):
         # these store clock readings (last admission time, measured duration): after a wait the values differ by design
         same_as_baseline = res == bres and [len(x) for x in rows_a] == [len(x) for x in brows_a]
